@@ -23,7 +23,7 @@ RULE = (
 ASSUMPTIONS = ["the capture helper and the uberjob call are on one source line (same f_lineno)", "depth limit read from uberjob._util.traceback.MAX_TRACEBACK_DEPTH"]
 
 MODNAMES = ["gen_builder", "uberjob_pipelines", "uberjobx.build", "my.uberjob.jobs", "__main__"]
-KINDS = ["src_read_shared", "call", "gather_explicit", "gather_implicit", "unpack", "reg_write", "reg_readback", "src_read", "src_noreg", "mtime_stored", "mtime_source",
+KINDS = ["call_in_genexpr", "nested_callerror", "src_read_shared", "call", "gather_explicit", "gather_implicit", "unpack", "reg_write", "reg_readback", "src_read", "src_noreg", "mtime_stored", "mtime_source",
          "gather_nested_set", "gather_nested_dictkey", "gather_nested_implicit", "gather_nested_deep"]
 
 
@@ -43,6 +43,10 @@ def gen_cases(tier, seed):
 
 CREATE = {
     "call": "here('X'); node = plan.call(K.boom); K.out = node",
+    # created inside a generator expression: the innermost frame is <genexpr>, then the function that consumes it
+    "call_in_genexpr": "t = tuple((here('X'), plan.call(K.boom))[1] for _ in range(1)); K.out = t[0]",
+    # the plan's function fails with a CallError of ANOTHER plan (it ran a nested plan that failed): the error of THIS run names this call
+    "nested_callerror": "here('X'); node = plan.call(K.boom_callerror); K.out = node",
     "gather_explicit": "a = plan.call(K.mklist)\n{ind}here('X'); node = plan.gather({{a}}); K.out = node",
     "gather_implicit": "a = plan.call(K.mklist)\n{ind}here('X'); c = plan.call(K.ident, {{a}}); K.out = c",
     # nested structures: every gather call created for one value carries the line of that plan.gather / plan.call
@@ -111,6 +115,12 @@ def run_case(desc):
         @staticmethod
         def boom():
             raise Boom("boom")
+
+        @staticmethod
+        def boom_callerror():
+            inner = uberjob.Plan()
+            c = inner.call(K.boom)
+            uberjob.run(inner, output=c, progress=None)
 
         @staticmethod
         def ok():
@@ -231,7 +241,7 @@ def run_case(desc):
                 break
             got.append((sf.name, sf.path, sf.line))
             sf = sf.outer
-        expected_fn = {"src_read_shared": "read", "gather_nested_set": "gather_set", "gather_nested_dictkey": "gather_dict", "gather_nested_implicit": "gather_set", "gather_nested_deep": "gather_set",
+        expected_fn = {"call_in_genexpr": "boom", "nested_callerror": "boom_callerror", "src_read_shared": "read", "gather_nested_set": "gather_set", "gather_nested_dictkey": "gather_dict", "gather_nested_implicit": "gather_set", "gather_nested_deep": "gather_set",
                        "call": "boom", "gather_explicit": "gather_set", "gather_implicit": "gather_set", "unpack": "unpack", "reg_write": "write",
                        "reg_readback": "read", "src_read": "read", "src_noreg": "source", "mtime_stored": "ok", "mtime_source": "source"}[desc["kind"]]
         if getattr(call.fn, "__name__", None) != expected_fn:
@@ -249,7 +259,7 @@ def run_case(desc):
                 bad = f"rendered message lists {lines[1:]} expected {exp_lines}"
             elif not lines[0].startswith("An exception was raised in a symbolic call to "):
                 bad = f"unexpected first line {lines[0]!r}"
-            elif exc.__cause__ is None or type(exc.__cause__).__name__ not in ("Boom", "TypeError", "ValueError", "NotTransformedError"):
+            elif exc.__cause__ is None or type(exc.__cause__).__name__ not in ("Boom", "TypeError", "ValueError", "NotTransformedError", "CallError"):
                 bad = f"unexpected cause {exc.__cause__!r}"
     depth_total = len(chain)
     rel = "shallower" if depth_total < LIMIT + 1 else ("equal" if depth_total == LIMIT + 1 else "deeper")
